@@ -1,8 +1,11 @@
 package clusterx
 
 import (
+	"fmt"
 	"log/slog"
 	"os"
+	"runtime"
+	"runtime/pprof"
 	"testing"
 
 	"verifharness/evid"
@@ -23,6 +26,15 @@ func TestMain(m *testing.M) {
 	}
 	installPanicHandler()
 	code := m.Run()
+	if os.Getenv("VERIF_DEBUG") != "" {
+		var ms runtime.MemStats
+		runtime.GC()
+		runtime.ReadMemStats(&ms)
+		fmt.Fprintf(os.Stderr, "VERIF_DEBUG goroutines=%d heapInuse=%dMB sys=%dMB\n", runtime.NumGoroutine(), ms.HeapInuse>>20, ms.Sys>>20)
+		if os.Getenv("VERIF_DEBUG") == "2" {
+			_ = pprof.Lookup("goroutine").WriteTo(os.Stderr, 1)
+		}
+	}
 	evid.Flush()
 	_ = os.RemoveAll(tmpRoot)
 	os.Exit(code)
